@@ -84,9 +84,10 @@ impl<T> ChannelSlots<T> {
         // First try to grab the next available channel ID we're aware of; this
         // could fail if a user requested a channel ID greater than the ones we've
         // handed out from within this function, so keep looking.
-        while self.next_channel_id <= self.channel_max {
+        // next_channel_id wraps to 0 after u16::MAX; 0 means every id has been used once
+        while self.next_channel_id != 0 && self.next_channel_id <= self.channel_max {
             let channel_id = self.next_channel_id;
-            self.next_channel_id += 1;
+            self.next_channel_id = self.next_channel_id.wrapping_add(1);
             match self.slots.entry(channel_id) {
                 Entry::Occupied(_) => continue,
                 Entry::Vacant(entry) => {
